@@ -7,4 +7,5 @@ def main : IO UInt32 :=
     match family with
     | "c09" => C09.checkTracer params lines
     | "c09g" => C09.checkGrammar params lines
+    | "c09c" => C09.checkGrammar params lines
     | _ => { bad := [s!"unknown family {family}"] })
